@@ -384,10 +384,14 @@ func (e *Engine) Generate(prop, tier string, seed uint64, run int) *sim.Plan {
 		add("push", order[1], nil)
 		add("pull", order[2], nil)
 		add("push", order[2], nil)
-		// the first one fast-forwards to the others' merge commits and edits on top of them
-		add("pull", order[0], nil)
-		edit(order[0])
-		add("push", order[0], nil)
+		// in half of the cases the first one then fast-forwards to the others' merge commits and edits on
+		// top of them (in the other half the history ends on the concurrent merges: a later edit would
+		// repair what a wrongly skipped merge leaves behind)
+		if mr.Chance(0.5) {
+			add("pull", order[0], nil)
+			edit(order[0])
+			add("push", order[0], nil)
+		}
 		p.Cfg["closing_motif"] = true
 	}
 	if prop == "C15" && sim.NewRand(sim.Mix(rs, 0xC15E)).Chance(0.3) {
